@@ -8,7 +8,10 @@ import PkgsrcVerif.Props.C06
 import PkgsrcVerif.Props.C07
 import PkgsrcVerif.Props.C08
 import PkgsrcVerif.Props.C09
+import PkgsrcVerif.Props.C14
+import PkgsrcVerif.Props.C15
 import PkgsrcVerif.Props.C18
 import PkgsrcVerif.Props.C19
 import PkgsrcVerif.Driver.Pat
 import PkgsrcVerif.Driver.Sum
+import PkgsrcVerif.Driver.Plist
